@@ -54,6 +54,9 @@ def wrap(v, name='arg', alphabet=None):
         m = v.m
         return Opaque(m.name, 'func', {'rowwise': RowWise(m.name, m.k, m.tuple_kind, m.trailing, recording=True), 'real': v,
                                        'types': ['function']})
+    from .models import AttrObject
+    if isinstance(v, AttrObject):
+        return Opaque(name, v._cls, {k: wrap(x, k, alphabet) for k, x in v.attrs().items()})
     if isinstance(v, torch.Tensor):
         return Tn.of_real(v.detach().clone(), name)
     if isinstance(v, numpy.ndarray):
